@@ -180,6 +180,94 @@ def r82(ctx, fx, keywords):
     ctx.inst(rid, "keywords", sample={"retained_candidates": retained[:12]})
 
 
+_NORMALISERS = ("to_lowercase", "to_ascii_lowercase", "to_uppercase", "to_ascii_uppercase", "eq_ignore_ascii_case")
+
+
+def _case_sensitive_uses(body, names):
+    """comparisons of a string derived from one of `names` that distinguish letter case: (line, what)"""
+    out = []
+
+    def mentions(e):
+        return any(x.get("k") == "path" and (x.get("res") or {}).get("dk") == "Local" and x["res"].get("name") in names for x in lib.hwalk(e))
+
+    def stringy(e):
+        t = str(lib.strip(e).get("ty") or "")
+        return "str" in t or "String" in t or "LocatedSpan" in t or "Cow" in t
+
+    def normalised(e):
+        d = repr(lib.hdesc(e))
+        return any(n in d for n in _NORMALISERS)
+    for x in lib.hwalk(body):
+        k = x.get("k")
+        if k == "binary" and x.get("op") in ("Eq", "Ne"):
+            for a in (x["l"], x["r"]):
+                if mentions(a) and stringy(a) and not normalised(a):
+                    out.append((x.get("ln"), "`==`"))
+                    break
+        elif k == "mcall" and x.get("name") in ("eq", "ne", "starts_with", "ends_with", "contains", "cmp", "partial_cmp", "get", "contains_key") and \
+                ((mentions(x["recv"]) and stringy(x["recv"]) and not normalised(x["recv"]) and x.get("name") not in ("get", "contains_key")) or
+                 any(mentions(a) and stringy(a) and not normalised(a) for a in x.get("args", []))):
+            out.append((x.get("ln"), "`%s`" % x["name"]))
+        elif k == "match" and x.get("src") not in ("ForLoopDesugar", "TryDesugar", "QuestionMark") and mentions(x["scrut"]) and stringy(x["scrut"]) and \
+                not normalised(x["scrut"]) and any(a["pat"].get("k") == "lit" for a in x["arms"]):
+            out.append((x.get("ln"), "`match`"))
+    return out
+
+
+def r85(ctx, fx):
+    rid = ctx.rule("R8.5", "text that a case-insensitive terminal matched and the parser keeps (the closure of the enclosing `map` uses it instead of replacing it by a "
+                   "constant) is never compared case-sensitively: neither in the closure itself nor in the workspace function it is handed to (`==`, `eq`, "
+                   "`match` on literals, map lookups — unless the text went through to_lowercase / eq_ignore_ascii_case first). The grammar accepts `PETSCII`; a "
+                   "lookup that only knows `petscii` silently takes another meaning")
+    n = 0
+    seen = {}
+    for f in parser_fns(fx):
+        gs = [grammar.fn_grammar(f)] + grammar.applied_parsers(f)
+        done = set()
+        for g in gs:
+            for t in grammar.walk(g):
+                if t[0] != "map" or not isinstance(t[2], dict) or t[2].get("k") != "closure" or id(t[2]) in done:
+                    continue
+                done.add(id(t[2]))
+                clo = t[2]
+                nocase = [x for x in grammar.walk(t[1]) if (x[0] == "tag" and len(x) > 2 and x[2] is True) or (x[0] == "tagvar" and len(x) > 2 and x[2]) or
+                          (x[0] == "call" and str(x[1]).endswith("tag_no_case"))]
+                if not nocase:
+                    continue
+                names = {q["name"] for p_ in clo.get("params", []) for q in lib.hwalk(p_) if q.get("k") == "bind"}
+                if not names:
+                    continue
+                n += 1
+                seen[f.path] = seen.get(f.path, 0) + 1
+                key = "%s|kept-text#%d" % (f.path, seen[f.path])
+                uses = [(ln, what, f) for ln, what in _case_sensitive_uses(clo.get("body", {}), names)]
+                handed = []
+                for x, p in lib.hir_calls(clo.get("body", {})):
+                    if not p or not (p.startswith("mos_core::") or p.startswith("mos::")):
+                        continue
+                    callee = fx.fn(p) or next((h for h in fx.all_fns() if lib.norm(h.path) == lib.norm(p) and h.d.get("hir")), None)
+                    if callee is None or not callee.d.get("hir"):
+                        continue
+                    for i, a in enumerate(lib.hargs(x)):
+                        if any(y.get("k") == "path" and (y.get("res") or {}).get("dk") == "Local" and y["res"].get("name") in names for y in lib.hwalk(a)) and \
+                                not any(nm in repr(lib.hdesc(a)) for nm in _NORMALISERS):
+                            ps = callee.hir.get("params") or []
+                            if i < len(ps):
+                                pn = {q["name"] for q in lib.hwalk(ps[i]) if q.get("k") == "bind"}
+                                handed.append(callee.path)
+                                uses += [(ln, what, callee) for ln, what in _case_sensitive_uses(callee.hir["body"], pn)]
+                ctx.inst(rid, key, nontrivial=bool(handed or uses), sample={"parser": f.path, "kept": sorted(names), "handed_to": sorted(set(handed)),
+                                                                             "case_sensitive_uses": len(uses)} if (handed or uses) else None)
+                for j, (ln, what, where) in enumerate(uses):
+                    ctx.finding(rid, "%s|%s#%d" % (key, where.path.rsplit("::", 1)[-1], j + 1),
+                                "%s keeps the text a case-insensitive keyword matched and %s compares it with %s, which tells upper from lower case: the spelling "
+                                "the grammar accepts in any letter case means something else (or nothing) when it is not written in lower case" % (
+                                    f.path.rsplit("::", 1)[-1], where.path.rsplit("::", 2)[-1] if where is not f else "its closure", what),
+                                "%s:%s" % (where.file, ln))
+    if n < 5:
+        ctx.fail_closed(rid, "fewer than 5 `map`s over case-insensitive terminals found (%d)" % n)
+
+
 def r84(ctx, fx):
     from . import grammar
     rid = ctx.rule("R8.4", "a line comment may be empty: the text parser that follows the `//` tag accepts the empty string (opt / many0 / take_while), "
@@ -206,5 +294,6 @@ def run(ctx):
     kws = r81_83(ctx, fx)
     r82(ctx, fx, kws)
     r84(ctx, fx)
+    r85(ctx, fx)
     ctx.not_decided("equality of bytes/symbols/diagnostics for concrete trivia placements; nested block comment scanning on arbitrary text; CRLF handling beyond "
                     "the newline trivia rule")
